@@ -96,11 +96,11 @@ def chain_sample(summary_hash, height, ser_at):
     return b''.join(out)
 
 
-def evidence_for(summary, height, txs, ser_at):
+def evidence_for(summary, height, txs, ser_at, txs_ser=None):
     """(summary_hash, chain_sample, block_hash) as the rule prescribes"""
     sh = SCRYPT(enc.enc_summary(summary), height.to_bytes(8, 'big'))
     cs = b'\x00' * 32 if height == 0 else chain_sample(sh, height, ser_at)
-    bh = enc.blake2(sh + cs + enc.enc_txlist(txs))
+    bh = enc.blake2(sh + cs + (enc.enc_txlist(txs) if txs_ser is None else txs_ser))
     return sh, cs, bh
 
 
